@@ -72,6 +72,12 @@ def spec(th, seed):
     if th:
         units.append(swz('op.f32.clang', 2, 1, 3, flagset='clang', defs=FOP))
         units.append(swz('op.i32.clang', 2, 4, 3, flagset='clang', defs=FOP))
+    # -- swizzle proxies as operands of the arithmetic operators and as constructor arguments (mon/C17_swzops.cpp)
+    units.append(U('C17_swzops.packed', 'mon/C17_swzops.cpp', 'plain', defs=FOP + ['-msse2']))
+    units.append(U('C17_swzops.aligned', 'mon/C17_swzops.cpp', 'plain', defs=FOP + ['-DGLM_FORCE_DEFAULT_ALIGNED_GENTYPES', '-mavx2', '-mfma']))
+    if th:
+        units.append(U('C17_swzops.packed.clang', 'mon/C17_swzops.cpp', 'clang', defs=FOP + ['-msse2']))
+        units.append(U('C17_swzops.aligned.O0', 'mon/C17_swzops.cpp', 'plainO0', defs=FOP + ['-DGLM_FORCE_DEFAULT_ALIGNED_GENTYPES', '-msse2']))
     # -- constructors
     plan = gen_C17.plan(th)
     for cfg in plan:
